@@ -142,6 +142,11 @@ int main(int argc, char** argv) {
       volatile uint64_t h1 = 0, h2 = 0; volatile int e1 = -1, e2 = -1;
       HC_TRY(e1 = eq(vals[a], vals[b]); e2 = eq(vals[b], vals[a]); h1 = hash(vals[a]); h2 = hash(vals[b]));
       ev_begin("same"); ev_int("eq", e1); ev_int("eqr", e2); ev_limbs("h", h1); ev_limbs("h2", h2); ev_str("exc", hc_exc); ev_int("line", cur_line); ev_end();
+    } else if (hc_is(0, "less")) {               /* the script states that a < b: both directions and the predicates */
+      volatile int r1 = 9, r2 = 9, l = -1, g = -1, q = -1;
+      HC_TRY(r1 = cmp(vals[a], vals[b]); r2 = cmp(vals[b], vals[a]); l = lt(vals[a], vals[b]); g = gt(vals[b], vals[a]); q = eq(vals[a], vals[b]));
+      ev_begin("less"); ev_int("r1", r1 < 0 ? -1 : r1 > 0 ? 1 : 0); ev_int("r2", r2 < 0 ? -1 : r2 > 0 ? 1 : 0); ev_int("lt", l); ev_int("gt", g); ev_int("eq", q);
+      ev_str("exc", hc_exc); ev_int("line", cur_line); ev_end();
     } else if (hc_is(0, "swap")) {
       ev_begin("swap"); ev_val("a0", vals[a]); ev_val("b0", vals[b]);
       HC_TRY(swap(vals[a], vals[b]));
